@@ -1,7 +1,7 @@
 #!/bin/bash
 # confirm every sub-agent output under /tmp/wt/c*-out/* that is not yet filed (sequential; slow)
 cd /verif
-for d in /tmp/wt/c*-out/*/; do
+for d in /tmp/wt/${1:-c}*-out/*/; do
   d=${d%/}
   [ -f "$d/patch.diff" ] && [ -f "$d/meta.json" ] || continue
   id=$(basename $(dirname $d) | sed 's/-out//')
